@@ -546,6 +546,11 @@ def run(prog, rep, tier):
     rep.rule('VALUE-dead', 'no result of a call is bound to a local that is never read (reaching '
              'definitions)')
     check_dead_computations(prog, rep, ['tenpy/linalg/charges.py'])
+    from ..flow import check_perm_mixed_direction
+    rep.rule('PERM-mixed-direction', 'one permutation re-orders co-indexed arrays in one direction '
+             'only (gather or scatter) within a function of charges.py')
+    if check_perm_mixed_direction(prog, rep, ['tenpy/linalg/charges.py', 'tenpy/linalg/np_conserved.py']) < 4:
+        raise AnalysisError('PERM-mixed-direction: permutation uses in charges.py not found')
     return rep.finish(
         level='other',
         explanation='Fusion rule, direction algebra (all sign cases), q_map column roles (%d '
